@@ -385,8 +385,31 @@ def run_property(pid, tier='quick', update_ledger=False, verbose=False):
                     json.dump(_jsonable(out), fh, indent=1, default=str)
                 lines.append('VIOLATION property=%s replay=%s' % (pid, rp))
                 lines.append('  bounded stand-in %s found a failing input: %s' % (out['name'], str(out.get('witness'))[:200]))
-        except Exception:
+        except NativeTimeout:
             crashed.append(dict(func=getattr(b, '__name__', 'bounded'), error=traceback.format_exc()))
+        except Exception as exc_:
+            # an exception the stand-in did not expect.  Raised INSIDE the code under test (innermost frame in the package
+            # source) it is an observation about that code -- the rendering the stand-in asked for failed where it does not
+            # fail on the unchanged tree -- and is reported as a failing input; anywhere else it is a crash of the checker.
+            import traceback as _tb
+            frames = _tb.extract_tb(exc_.__traceback__)
+            from pyvc.engine import REPO_SRC as _RS
+            inner = frames[-1].filename if frames else ''
+            pkg = [f for f in frames if f.filename.startswith(os.path.realpath(_RS)) or f.filename.startswith(_RS)]
+            if pkg and (inner.startswith(_RS) or inner.startswith(os.path.realpath(_RS)) or inner.startswith('<')):
+                violations += 1
+                nm = getattr(b, '__name__', 'bounded').strip('_')
+                out = dict(name='%s.native_unexpected_exception' % pid, tool='native run on the real code', violation=True,
+                           witness=dict(exception=repr(exc_)[:300], raised_in='%s:%d %s' % (pkg[-1].filename, pkg[-1].lineno, pkg[-1].name),
+                                        stand_in=nm, traceback=_tb.format_exc()[-1500:]))
+                bounded_out.append(out)
+                rp = os.path.join(replay_dir, '%s-%s.json' % (pid, _safe(out['name'])))
+                with open(rp, 'w') as fh:
+                    json.dump(_jsonable(out), fh, indent=1, default=str)
+                lines.append('VIOLATION property=%s replay=%s' % (pid, rp))
+                lines.append('  bounded stand-in: the real code raised %s at %s' % (repr(exc_)[:120], out['witness']['raised_in']))
+            else:
+                crashed.append(dict(func=getattr(b, '__name__', 'bounded'), error=traceback.format_exc()))
 
     n_obl = len(claimed)
     n_dis = sum(1 for o in claimed.values() if o['status'] == 'discharged')
